@@ -30,7 +30,8 @@ META = {
                    "propagation of argparse defaults enumerates every stdout-writing call; the except-clauses are "
                    "read as an exit-code table and checked against the raises that feed them; dataflow ties the "
                    "echoed file and the report_id to their required origins. Necessary conditions only."
-                   " Also: Path.read_text/read_bytes as input reads, decoding failures of stdin mapped to the unreadable-input class, the stdin spool as a verbatim single write, and sibling agreement of the early returns of the JSON and CSV writers.",
+                   " Also: Path.read_text/read_bytes as input reads, decoding failures of stdin mapped to the unreadable-input class, the stdin spool as a verbatim single write, and sibling agreement of the early returns of the JSON and CSV writers."
+                   " Round 3: the per-format dispatch dominates every normal return of Report.generate, SHA-256 never over re-encoded text anywhere in the module, nothing of the input's name in the temporary project, probes of the input path mapped to exit 1, file and stdin agree on what is empty.",
     "assumptions": ["click.echo(..., err=True), logging and print(file=sys.stderr) write to stderr",
                     "json.dumps/json.loads produce/accept well-formed JSON"],
 }
